@@ -22,9 +22,9 @@ LEVEL_TEXT = ('static analysis: (D1) do_segmetrics interpreted with tagged stati
               "every random draw of segmetrics.py is dominated by a constant seed (through the private helper's only caller); (D4) all stores go "
               'to a copy of the segments and only to new column names; (D5) z_prob = BH(2*cdf(-|log2 / sqrt(1 - weight)|)); do_bintest stores the'
               ' residuals as an index-aligned Series (not positionally), drops off-target bins before the adjustment when asked, and returns '
-              'exactly the bins with adjusted p < alpha; p_adjust_bh, interpreted on all orderings of four p-values with and without ties, equals'
-              ' the Benjamini-Hochberg step-up formula min(1, min_{j>=i} n p_(j) / j). Does not decide numerical agreement of the individual '
-              "statistics with reference implementations, nor that the CI lies inside the bins' range.")
+              'exactly the bins with adjusted p < alpha; p_adjust_bh, interpreted on all orderings of four p-values with and without ties (tied '
+              'p-values share the largest rank), equals the Benjamini-Hochberg step-up formula min(1, min_{j>=i} n p_(j) / j). Does not decide '
+              "numerical agreement of the individual statistics with reference implementations, nor that the CI lies inside the bins' range.")
 TECHNIQUE = "abstract interpretation with tagged statistic summaries (argument provenance), exact rational terms in alpha, seed-dominance rule, exact small-scope evaluation of Benjamini-Hochberg"
 
 SM = "cnvlib.segmetrics"
